@@ -9858,6 +9858,18 @@ func (p *parser) substituteSingleUseSymbolInExpr(
 			return expr, substituteFailure
 		}
 
+		// Do not substitute our unconditionally-executed value into the right
+		// operand of "&&", "||", or "??" unless the value itself has no side
+		// effects, since the right operand may not be evaluated. We can get here
+		// with a left operand that is a primitive of unknown truthiness:
+		//
+		//   let a = fn();
+		//   return 0x0n && a;
+		//
+		if e.Op.IsShortCircuit() && !replacementCanBeRemoved {
+			return expr, substituteFailure
+		}
+
 		// If we get here then it should be safe to attempt to substitute the
 		// replacement past the left operand into the right operand.
 		if value, status := p.substituteSingleUseSymbolInExpr(e.Right, ref, replacement, replacementCanBeRemoved); status != substituteContinue {
